@@ -1,5 +1,6 @@
 import RjModel.Lemmas.PlannerInv
 import RjModel.Generated.Decisions
+import RjModel.Generated.ProcessEntries
 /-! # C13 — what gets deleted and copied does not depend on message timing
 
 Model objects: `prun c PState.init evs` is `query_entries` fed with the merged arrival sequence `evs`
@@ -117,5 +118,58 @@ theorem C13_needs_copy_is_the_sources (c : PCfg) (s d : Details) (h : needsDelet
     Generated.needsCopySrc c s d = some (needsCopy c s d) := by
   cases s <;> cases d <;> simp_all [Generated.needsCopySrc, needsCopy, needsDelete]
   all_goals (split <;> split <;> rfl)
+
+/-- **`process_src_entry` and `process_dest_entry`, translated statement by statement from boss_sync.rs on every run, are the model's
+`pstep`** - for every configuration, every planner state, every path and entry, including the panics (`none`).  The statement
+translator (extract/translate.py, class `S`) handles: the statistics `match` (only `ctx.stats.*` is touched: translated to nothing), the
+containers' `add` / `update` / `remove`, `match <container>.lookup(&p)`, `if needs_delete(..)`, `if let Some(r) = needs_copy(..)`;
+it also checks the four call sites in `query_entries` (which container is passed for which parameter).  Anything else makes
+`processTranslated` false.  The order of the statements matters (`dest_entries.add` before the lookup of the source; `to_delete.update`
+on a key that must be there) and is part of what is compared. -/
+theorem C13_process_entries_are_the_sources : Generated.processTranslated = true ∧
+    (∀ c s p e, Generated.processSrcEntrySrc c s p e = pstep c s (.src p e)) ∧
+    (∀ c s p d, Generated.processDestEntrySrc c s p d = pstep c s (.dst p d)) := by
+  refine ⟨by decide, ?_, ?_⟩
+  · intro c s p e
+    simp only [Generated.processSrcEntrySrc, pstep]
+    cases hg : s.dst.get p with
+    | none => rfl
+    | some d =>
+      simp only [(C13_needs_delete_is_the_sources).2]
+      by_cases hd : needsDelete c e d = true
+      · simp only [hd, if_true]
+        cases hu : s.del.update p (d, .incompatible) <;> rfl
+      · have hd' : needsDelete c e d = false := by simpa using hd
+        simp only [hd', C13_needs_copy_is_the_sources c e d hd']
+        cases needsCopy c e d <;> rfl
+  · intro c s p d
+    simp only [Generated.processDestEntrySrc, pstep, Option.bind]
+    cases hg : s.src.get p with
+    | none => rfl
+    | some e =>
+      simp only [(C13_needs_delete_is_the_sources).2]
+      by_cases hd : needsDelete c e d = true
+      · simp only [hd, if_true]
+      · have hd' : needsDelete c e d = false := by simpa using hd
+        simp only [hd', C13_needs_copy_is_the_sources c e d hd']
+        cases needsCopy c e d <;> rfl
+
+/-- the loop of `query_entries` over the translated functions -/
+def prunSrc (c : PCfg) : PState → List Ev → Option PState
+  | s, [] => some s
+  | s, .src p e :: es => (Generated.processSrcEntrySrc c s p e).bind fun s' => prunSrc c s' es
+  | s, .dst p d :: es => (Generated.processDestEntrySrc c s p d).bind fun s' => prunSrc c s' es
+
+/-- **Every planner theorem speaks about the translated functions**: running the arrival sequence through the functions translated
+from the file is `prun` - so `C13_closed_form`, the order-independence corollaries and the C01 / C03 / C04 / C12 theorems that go
+through `prun` hold of `process_src_entry` / `process_dest_entry` as they are written today. -/
+theorem C13_translated_run_is_prun (c : PCfg) (s : PState) (evs : List Ev) : prunSrc c s evs = prun c s evs := by
+  induction evs generalizing s with
+  | nil => rfl
+  | cons ev es ih =>
+    cases ev with
+    | src p e => simp only [prunSrc, prun, (C13_process_entries_are_the_sources).2.1, ih]
+    | dst p d => simp only [prunSrc, prun, (C13_process_entries_are_the_sources).2.2, ih]
+
 
 end Rj.C13
